@@ -54,3 +54,28 @@ theorem rotAt_wf (L : Lat) (h : L.noSelfLoop = true) : WF L (rotAt L) where
   noLoop := noLoop_of_noSelfLoop L h
   nodup := fun v => (rotAt_perm L v).nodup_iff.mpr (incident_nodup L v)
   mem_iff := fun v e => by rw [(rotAt_perm L v).mem_iff]; exact mem_incident L v e
+
+/-- the driver evaluates the rotation system through a table computed once; on lattices whose edges
+    are in range (the driver rejects all others) that is the same function as `rotAt`. -/
+theorem rotOfTable_eq (L : Lat) (hr : ∀ e ∈ L.edges, e.1 < L.nV ∧ e.2 < L.nV) :
+    rotOfTable (rotTable L) = rotAt L := by
+  funext v
+  unfold rotOfTable rotTable
+  by_cases hv : v < L.nV
+  · simp [Array.getD, hv]
+  · have hsz : ¬ v < ((Array.range L.nV).map (rotAt L)).size := by simpa using hv
+    simp only [Array.getD, hsz, dif_neg, not_false_eq_true]
+    have hinc : incident L v = [] := by
+      unfold incident
+      rw [List.filter_eq_nil_iff]
+      intro e he
+      have he' : e < L.E := List.mem_range.mp he
+      have hmem : L.edges[e]'he' ∈ L.edges := List.getElem_mem _
+      have := hr _ hmem
+      have hends : L.endsOf e = L.edges[e]'he' := by unfold Lat.endsOf; exact getD_of_lt _ _ _ he'
+      rw [hends]
+      have h1 : (L.edges[e]'he').1 ≠ v := by omega
+      have h2 : (L.edges[e]'he').2 ≠ v := by omega
+      simp [h1, h2]
+    unfold rotAt
+    rw [hinc]; rfl
